@@ -83,6 +83,8 @@ type step struct {
 	By    bool    `json:"by,omitempty"`
 	Shift int     `json:"shift,omitempty"`
 	Kind  string  `json:"kind,omitempty"`
+	// reopen: resources (abstract names) whose re-announcement on the new session the transport fails
+	FailAnn []string `json:"failann,omitempty"`
 }
 
 type scenario struct {
@@ -951,7 +953,7 @@ func (l *clientLab) run(em *emitter, sc scenario, seed int64, idx int) string {
 
 // ----------------------------------------------------------------------------- reconnect
 
-type tccSvc struct{}
+type tccSvc struct{ name string }
 
 func (tccSvc) Prepare(ctx context.Context, params interface{}) (bool, error) { return true, nil }
 func (tccSvc) Commit(ctx context.Context, bac *tm.BusinessActionContext) (bool, error) {
@@ -960,7 +962,12 @@ func (tccSvc) Commit(ctx context.Context, bac *tm.BusinessActionContext) (bool, 
 func (tccSvc) Rollback(ctx context.Context, bac *tm.BusinessActionContext) (bool, error) {
 	return true, nil
 }
-func (tccSvc) GetActionName() string { return "verifTccAction" }
+func (t tccSvc) GetActionName() string {
+	if t.name != "" {
+		return t.name
+	}
+	return "verifTccAction"
+}
 
 type pending struct {
 	abs  string
@@ -996,15 +1003,28 @@ func runReconnect(em *emitter, policy string, sc scenario, o *common.Opts, idx i
 		em.fatal("tcc proxy: %v", err)
 	}
 	tccRID := proxy.GetActionName()
+	// a second action: two resources under one resource manager (what is done for one of them on a new session
+	// must not decide what is done for the other)
+	proxy2, err := tcc.NewTCCServiceProxy(&tccSvc{name: "verifTccAction2"})
+	if err != nil {
+		em.fatal("tcc proxy 2: %v", err)
+	}
+	tcc2RID := proxy2.GetActionName()
 	absOf := func(rid string) string {
 		switch rid {
 		case lab.RID:
 			return "at"
 		case tccRID:
 			return "tcc"
+		case tcc2RID:
+			return "tcc2"
 		}
 		return "other"
 	}
+	ridOf := map[string]string{"at": lab.RID, "tcc": tccRID, "tcc2": tcc2RID}
+	// re-announcements the transport is to fail: resource id -> session name
+	var failMu sync.Mutex
+	failAnn := map[string]string{}
 	tcs := []*tc.TC{coord}
 	var tc2 *tc.TC
 	init := sc.Steps[0]
@@ -1042,7 +1062,7 @@ func runReconnect(em *emitter, policy string, sc scenario, o *common.Opts, idx i
 		var recs []tc.Record
 		for _, t := range tcs {
 			for _, r := range t.Log() {
-				if r.Dir == "in" && r.Seq > lastSeq && r.Note == "" && (r.Kind == "RegisterTM" || r.Kind == "RegisterRM") {
+				if r.Dir == "in" && r.Seq > lastSeq && (r.Note == "" || r.Note == "neterr") && (r.Kind == "RegisterTM" || r.Kind == "RegisterRM") {
 					recs = append(recs, r)
 				}
 			}
@@ -1055,7 +1075,11 @@ func runReconnect(em *emitter, policy string, sc scenario, o *common.Opts, idx i
 				em.Add("AnnounceTM", "s", sessIdx(r.Session), "sig", "announce-tm")
 			case message.RegisterRMRequest:
 				for _, rid := range strings.Split(b.ResourceIds, ",") {
-					em.Add("AnnounceRM", "s", sessIdx(r.Session), "rid", absOf(strings.TrimSpace(rid)), "sig", "announce-rm")
+					if r.Note == "neterr" {
+						em.Add("AnnounceFailed", "s", sessIdx(r.Session), "rid", absOf(strings.TrimSpace(rid)), "sig", "announce-failed")
+					} else {
+						em.Add("AnnounceRM", "s", sessIdx(r.Session), "rid", absOf(strings.TrimSpace(rid)), "sig", "announce-rm")
+					}
 				}
 			}
 		}
@@ -1065,6 +1089,17 @@ func runReconnect(em *emitter, policy string, sc scenario, o *common.Opts, idx i
 	var holdMu sync.Mutex
 	var holds []chan struct{}
 	script := func(kind string, m tc.Msg) (tc.Reply, bool) {
+		if req, ok := m.Rpc.Body.(message.RegisterRMRequest); ok {
+			failMu.Lock()
+			sess, hit := failAnn[strings.TrimSpace(req.ResourceIds)]
+			if hit && sess == m.Session.Name {
+				delete(failAnn, strings.TrimSpace(req.ResourceIds))
+			}
+			failMu.Unlock()
+			if hit && sess == m.Session.Name {
+				return tc.Reply{NetErr: errors.New("write tcp 10.0.0.9:40112->10.0.0.1:8091: i/o timeout")}, true
+			}
+		}
 		if req, ok := m.Rpc.Body.(message.GlobalBeginRequest); ok {
 			if strings.HasPrefix(req.TransactionName, "inflight") {
 				ch := make(chan struct{})
@@ -1085,7 +1120,7 @@ func runReconnect(em *emitter, policy string, sc scenario, o *common.Opts, idx i
 	coord.Script = script
 
 	a1 := announced("s1")
-	if !a1.tm || !a1.rm[lab.RID] || !a1.rm[tccRID] {
+	if !a1.tm || !a1.rm[lab.RID] || !a1.rm[tccRID] || !a1.rm[tcc2RID] {
 		em.fatal("setup: first session lacks announcements: tm=%v rm=%v (at=%q tcc=%q)", a1.tm, a1.rm, lab.RID, tccRID)
 	}
 	// mark everything seen so far as emitted: Init carries it
@@ -1133,8 +1168,8 @@ func runReconnect(em *emitter, policy string, sc scenario, o *common.Opts, idx i
 				}
 			}
 		}
-		em.Add("Init", "part", "rc", "resources", []string{"at", "tcc"}, "by", init.By,
-			"tm0", a1.tm, "rm0", []string{"at", "tcc"}, "tmb", ab.tm, "rmb", keysAbs(ab.rm, absOf), "sig", "init")
+		em.Add("Init", "part", "rc", "resources", []string{"at", "tcc", "tcc2"}, "by", init.By,
+			"tm0", a1.tm, "rm0", []string{"at", "tcc", "tcc2"}, "tmb", ab.tm, "rmb", keysAbs(ab.rm, absOf), "sig", "init")
 	}
 	sigOf := func() string {
 		b := 0
@@ -1169,6 +1204,9 @@ func runReconnect(em *emitter, policy string, sc scenario, o *common.Opts, idx i
 						if _, err := proxy.Prepare(ctx, map[string]interface{}{"n": nwork}); err != nil {
 							return fmt.Errorf("TCC phase one: %w", err)
 						}
+						if _, err := proxy2.Prepare(ctx, map[string]interface{}{"n": nwork}); err != nil {
+							return fmt.Errorf("TCC (second action) phase one: %w", err)
+						}
 						if !commit {
 							return errors.New("business decides to roll back")
 						}
@@ -1196,8 +1234,8 @@ func runReconnect(em *emitter, policy string, sc scenario, o *common.Opts, idx i
 						}
 					}
 				}
-				if len(got) != 2 {
-					em.fatal("workload transaction registered branches %v, want at and tcc (err %v)", got, txerr)
+				if len(got) != 3 {
+					em.fatal("workload transaction registered branches %v, want at, tcc and tcc2 (err %v)", got, txerr)
 				}
 				point = "p1p2"
 				ev := func() { em.Add("Work", "kind", "tx", "branches", got, "sig", "work/tx") }
@@ -1250,6 +1288,14 @@ func runReconnect(em *emitter, policy string, sc scenario, o *common.Opts, idx i
 			for _, t := range tcs {
 				before += len(t.Log())
 			}
+			failMu.Lock()
+			for k := range failAnn {
+				delete(failAnn, k)
+			}
+			for _, abs := range st.FailAnn {
+				failAnn[ridOf[abs]] = fmt.Sprintf("s%d", nsess)
+			}
+			failMu.Unlock()
 			cur = coord.OpenSession(fmt.Sprintf("s%d", nsess))
 			em.Add("Reopen", "sig", sigOf())
 			// never go on while the client may be between "registered" and "announced": a request sent while
@@ -1277,7 +1323,7 @@ func runReconnect(em *emitter, policy string, sc scenario, o *common.Opts, idx i
 			end := time.Now().Add(grace)
 			for time.Now().Before(end) {
 				a := announced(cur.Name)
-				if a.tm && a.rm[lab.RID] && a.rm[tccRID] {
+				if a.tm && a.rm[lab.RID] && a.rm[tccRID] && a.rm[tcc2RID] {
 					break
 				}
 				time.Sleep(5 * time.Millisecond)
